@@ -45,4 +45,5 @@ def run(ctx):
                 "exactly the new variables' numbers.")
     nav = evnm2.check_add_vars(ctx, F)
     ctx.floor("E-VNM.addvars", "interpreted add_vars situations", nav, 10)
+    evnm2.check_get_or_add_flag(ctx, F)
     ctx.not_decided = "the bijection over call sequences as behaviour; that adding variables preserves functions"
